@@ -3,6 +3,7 @@ package sym
 import (
 	"fmt"
 	"go/types"
+	"reflect"
 
 	"gosym/smt"
 
@@ -327,6 +328,34 @@ func registerReflect(ex *Exec) {
 			ex.goPanic(st, "reflect: nil type passed to Type.ConvertibleTo")
 		}
 		return C.BoolConst(types.ConvertibleTo(t, rt(st, ui.V))), true
+	}
+	I["(*reflect.rtype).Comparable"] = func(ex *Exec, st *State, args []Value, call ssa.CallInstruction) (Value, bool) {
+		return C.BoolConst(types.Comparable(rt(st, args[0]))), true
+	}
+	// DeepEqual: natively, on deep copies of fully concrete values of the shapes the JSON conversion knows
+	I["reflect.DeepEqual"] = func(ex *Exec, st *State, args []Value, call ssa.CallInstruction) (res Value, done bool) {
+		defer func() {
+			if r := recover(); r != nil {
+				switch r.(type) {
+				case jsonUnsupported, jsonFailed, jsonPending:
+					ex.unsupported(st, "reflect.DeepEqual on a value that is not plain concrete data")
+				default:
+					panic(r)
+				}
+			}
+		}()
+		a, b := args[0].(Iface), args[1].(Iface)
+		if a.T == nil || b.T == nil {
+			return C.BoolConst(a.T == nil && b.T == nil), true
+		}
+		if !types.Identical(a.T, b.T) {
+			return C.False, true
+		}
+		ex.jsonDepth = 0
+		ga := ex.toGoDeep(st, a.V, a.T)
+		ex.jsonDepth = 0
+		gb := ex.toGoDeep(st, b.V, b.T)
+		return C.BoolConst(reflect.DeepEqual(ga, gb)), true
 	}
 	I["(*reflect.rtype).Name"] = func(ex *Exec, st *State, args []Value, call ssa.CallInstruction) (Value, bool) {
 		t := rt(st, args[0])
